@@ -51,6 +51,8 @@ theorem C12_canon_closed (c n k : Nat) (hc : 0 < c) (hk : 0 < k) :
     Canon (regGrid c n) ∧ Canon (List.replicate k c) :=
   ⟨canon_regGrid c n hc, canon_replicate k c hc hk⟩
 
+example : Canon (regGrid 4 9) ∧ Canon (List.replicate 3 4) := C12_canon_closed 4 9 3 (by decide) (by decide)
+
 /-! ### blockwise: elementwise with broadcasting, permute_dims -/
 
 /-- `blockwise` with an index-faithful block function (elementwise with NumPy broadcasting, transposition),
@@ -107,6 +109,12 @@ theorem C12_declared_eq_reference_squeeze (axes : List Nat) (x : Chunks) :
     shapeOf (removeAxes axes x) = reducedShape (shapeOf x) axes false := by
   rw [shapeOf_removeAxes]; rfl
 
+example : shapeOf (removeAxes [1] [[4, 4, 1], [1], [3]]) = [9, 3] := by decide
+example : ∀ j c, [[4, 4, 1], [1], [3]][j]? = some c → [1].contains j = true → c = [1] := by
+  intro j c hj hc
+  have : j = 1 := by simpa using hc
+  subst this; simpa using hj.symm
+
 /-- `expand_dims(x, axis)` (declared chunks: `(1,)` inserted at `axis`): the block of `x` at the other
 coordinates with a length-1 axis inserted has the extents of the declared chunk. -/
 theorem C12_block_shape_ok_expand_dims (x : Chunks) (axis : Nat) (hax : axis ≤ x.length)
@@ -139,6 +147,12 @@ theorem C12_block_shape_ok_partial_reduce (p : PartialReduce) (hk : p.kind = .ke
 
 example : prChunkss { x := [[4, 4, 1], [3, 3, 3, 1]], split := [(1, 2)], combine := [] } = [[4, 4, 1], [1, 1]]
     ∧ prBlock { x := [[4, 4, 1], [3, 3, 3, 1]], split := [(1, 2)], combine := [] } [2, 1] = some [1, 1] := by decide
+example : ∀ i k, ([(1, 2)] : List (Nat × Nat)).lookup i = some k → 0 < k := by
+  intro i k h
+  by_cases hi : i = 1
+  · subst hi; simp [List.lookup] at h; omega
+  · have : (i == 1) = false := by simpa using hi
+    simp [List.lookup, this] at h
 
 /-- the scan level (`reduce = identity`, `combine_sizes = split`): every group must be full, which holds when
 the split size divides the number of blocks (this is what the `assert` in `scan` enforces while building). -/
@@ -153,6 +167,7 @@ theorem C12_block_shape_ok_scan_level (p : PartialReduce) (hk : p.kind = .concat
   exact concat_group_full k c.length b hpos hdvd hb
 
 example : prBlock { x := [[1, 1, 1, 1]], split := [(0, 2)], combine := [(0, 2)], kind := .concat } [1] = some [2] := by decide
+example : (2 : Nat) ∣ ([1, 1, 1, 1] : List Nat).length := ⟨2, rfl⟩
 /-- … and a group that is not full would be written into a longer region (7 blocks, split 5) -/
 example : extents (prChunkss { x := [[1, 1, 1, 1, 1, 1, 1]], split := [(0, 5)], combine := [(0, 5)], kind := .concat }) [1] = some [5]
     ∧ prBlock { x := [[1, 1, 1, 1, 1, 1, 1]], split := [(0, 5)], combine := [(0, 5)], kind := .concat } [1] = some [2] := by decide
@@ -229,6 +244,8 @@ theorem C12_stack_full_fails : ¬ ∀ args axis, StackBlockShapeOK args axis := 
 
 theorem C12_declared_eq_reference_stack (k : Nat) : (List.replicate k 1).sum = k := sum_replicate_one k
 
+example : shapeOf [[1, 1], [2, 1]] = [2, 3] := by decide
+
 /-- `unstack`: every yielded slice has the extents of the declared chunk (the input chunks without `axis`). -/
 theorem C12_block_shape_ok_unstack (x : Chunks) (axis : Nat) (d : Chunks) (hd : unstackChunkss x axis = some d)
     (coords : List Nat) : unstackBlock x axis coords = extents d coords := by
@@ -237,6 +254,8 @@ theorem C12_block_shape_ok_unstack (x : Chunks) (axis : Nat) (d : Chunks) (hd : 
   split at hd
   · next h => rw [if_pos h]; simp at hd; rw [hd]
   · simp at hd
+
+example : unstackChunkss [[2, 1], [2, 2]] 0 = some [[2, 2]] ∧ unstackBlock [[2, 1], [2, 2]] 0 [1] = some [2] := by decide
 
 /-- `repeat(x, r, axis)`: the slice `[bi*c, (bi+1)*c)` of the `r`-fold repeated input block `coords[axis] // r`
 (`bi = coords[axis] % r`) has exactly the length of chunk `coords[axis]` of the regular grid with the input's
@@ -250,6 +269,12 @@ example : repeatChunkss [[4, 4, 1]] 3 0 = some [[4, 4, 4, 4, 4, 4, 3]]
     ∧ repeatBlock [[4, 4, 1]] 3 0 [6] = some [3] ∧ repeatBlock [[4, 4, 1]] 3 0 [5] = some [4] := by decide
 
 theorem C12_declared_eq_reference_repeat (c n r : Nat) : (regGrid c (n * r)).sum = n * r := regGrid_sum c (n * r)
+
+example : ∀ c ∈ ([[4, 4, 1]] : Chunks), Canon c := by
+  intro c hc
+  simp at hc; subst hc
+  exact ⟨4, 9, by decide, by decide⟩
+example : shapeOf [[4, 4, 4, 4, 4, 4, 3]] = [9 * 3] := by decide
 
 /-! ### copy regions (rechunk, merge_chunks) and index -/
 
@@ -275,11 +300,19 @@ example : indexChunkss [[4, 4, 4, 1], [3]] [.slice 1 12 3 3, .int] = some [[1, 1
     ∧ indexBlock [[4, 4, 4, 1], [3]] [.slice 1 12 3 3, .int] [3] = some [1]
     ∧ indexChunkss [[4, 4, 4, 1]] [.slice 1 12 2 2] = some [[2, 2, 2]]
     ∧ indexBlock [[4, 4, 4, 1]] [.slice 1 12 2 2] [2] = some [2] := by decide
+example : ∀ p ∈ ([[4, 4, 4, 1], [3]] : Chunks).zip [Sel.slice 1 12 3 3, Sel.int], SelOK p.1 p.2 := by
+  intro p hp
+  simp at hp
+  rcases hp with rfl | rfl
+  · exact ⟨by decide, by decide⟩
+  · trivial
 
 /-- reference: the declared length `⌈(stop-start)/step⌉` of a sliced axis counts the selected positions. -/
 theorem C12_declared_eq_reference_slice (start stop step k : Nat) (hstep : 0 < step) :
     k < sliceLen start stop step ↔ start + k * step < stop :=
   sliceLen_spec start stop step k hstep
+
+example : sliceLen 1 12 3 = 4 ∧ 1 + 3 * 3 < 12 ∧ ¬ (1 + 4 * 3 < 12) := by decide
 
 /-! ### tall-and-skinny QR -/
 
